@@ -1,6 +1,7 @@
 package camp
 
 import (
+	"bytes"
 	"encoding/json"
 	"fmt"
 	"math/rand"
@@ -234,10 +235,19 @@ func runResets(c *Ctx, jobs []*SynJob, r *rand.Rand, perGrammar int) error {
 			}
 			k := 0
 			if len(names) > 0 {
-				k = r.Intn(len(names) + 2)
+				k = r.Intn(len(names) + 4) // up to a few calls past the end of the input
+			}
+			// a third of the lexers reads its text from a file (NewLexerFile), some of these files
+			// start with a byte-order mark or contain CR LF line ends
+			viaFile := n%3 == 0
+			if viaFile && r.Intn(2) == 0 {
+				src = append([]byte("\xef\xbb\xbf"), src...)
+			}
+			if viaFile && r.Intn(3) == 0 {
+				src = bytes.ReplaceAll(src, []byte("\n"), []byte("\r\n"))
 			}
 			refs = append(refs, ref{j, src, k})
-			cases = append(cases, &DCase{G: j.Name, Op: "lexreset", Src: src, K: k}, &DCase{G: j.Name, Op: "lex", Src: src})
+			cases = append(cases, &DCase{G: j.Name, Op: "lexreset", Src: src, K: k, ViaFile: viaFile}, &DCase{G: j.Name, Op: "lex", Src: src, ViaFile: viaFile})
 		}
 	}
 	if len(cases) == 0 {
